@@ -81,6 +81,7 @@ class Tables:
         self.B = self.T.shape[0]
         self.V = rep([c.get("V") or default_V(self.S).tolist() for c in cases]).astype(np.float64)
         self.LP0 = rep([c.get("LP0") or default_LP0(self.S).tolist() for c in cases]).astype(np.float64)
+        self.VS = rep([c.get("VS", 0.0) for c in cases]).astype(np.float64)  # V(obs, c) = V[obs] + VS * (policy counter c)
 
     def successor(self, s, a_idx):
         b = np.arange(self.B)
@@ -215,7 +216,7 @@ def check_onpolicy(tb: Tables, script, obs, acts, rews, dones, logps, vals, psta
             bad_lp = bad_lp & ~close(logps[:, j], lp_nomask)
         add(bad_lp & clipped, j, "C04/reeval/logprob/out-of-bounds-action", lambda i: f"step {j}: stored action {np.asarray(a_st[i]).tolist()} (policy chose {np.asarray(a_raw[i]).tolist()}) has log-prob {lp_stored_action[i]} under the policy, stored {logps[i, j]}: first PPO ratio = {np.exp(lp_stored_action[i] - logps[i, j]):.4f} != 1")
         add(bad_lp & ~clipped, j, "C04/reeval/logprob", lambda i: f"step {j}: stored log-prob {logps[i, j]} != policy's log-prob {lp_stored_action[i]} of stored action {np.asarray(a_st[i]).tolist()} in state {s[i]}")
-        v = tb.V[b, s]
+        v = tb.V[b, s] + tb.VS * c  # the policy state it acted with
         exp_val[:, j] = v
         add(~close(vals[:, j], v), j, "C04/reeval/value", lambda i: f"step {j}: stored value {vals[i, j]} != V(obs)={v[i]}")
         # environment driven with the clipped action
@@ -231,7 +232,8 @@ def check_onpolicy(tb: Tables, script, obs, acts, rews, dones, logps, vals, psta
         stats["trunc_only"] += int((trunc & ~term).sum())
         stats["term_only"] += int((term & ~trunc).sum())
         stats["both"] += int((term & trunc).sum())
-        boot = gamma * tb.V[b, s2]
+        boot = gamma * (tb.V[b, s2] + tb.VS * (c + 1))  # V of the successor observation under the policy state AFTER this step
+        boot_pre = gamma * (tb.V[b, s2] + tb.VS * c)
         want = r + np.where(trunc & ~term, boot, 0.0)
         exp_rew[:, j] = want
         got = np.asarray(rews[:, j], dtype=np.float64)
@@ -242,6 +244,9 @@ def check_onpolicy(tb: Tables, script, obs, acts, rews, dones, logps, vals, psta
         add(c_both, j, "C04/reward/bootstrap-on-terminated-and-truncated", lambda i: f"step {j}: step both terminated and truncated; reward {got[i]} = {r[i]} + gamma*V(successor), a true termination must not bootstrap (expected {want[i]})")
         c_term = bad & term & ~trunc & close(got, r + boot)
         add(c_term, j, "C04/reward/bootstrap-on-termination", lambda i: f"step {j}: terminated step bootstrapped: reward {got[i]}, expected {want[i]}")
+        c_pre = bad & trunc & ~term & close(got, r + boot_pre) & ~close(boot, boot_pre)
+        add(c_pre, j, "C04/reward/bootstrap-value-with-pre-step-policy-state", lambda i: f"step {j}: truncated-only step: reward {got[i]} = {r[i]} + gamma*V(successor | policy state BEFORE the step); the policy that continues from here holds the state after it (expected {want[i]})")
+        bad = bad & ~c_pre
         c_nob = bad & trunc & ~term & close(got, r)
         add(c_nob, j, "C04/reward/no-bootstrap-on-truncation", lambda i: f"step {j}: truncated-only step not bootstrapped: reward {got[i]}, expected {r[i]} + {boot[i]}")
         add(bad & ~c_raw & ~c_both & ~c_term & ~c_nob, j, "C04/reward/mismatch", lambda i: f"step {j}: stored reward {got[i]}, expected {want[i]} (state {s[i]}, executed action {np.asarray(a_clip[i]).tolist()}, successor {s2[i]}, term={term[i]}, trunc={trunc[i]})")
@@ -263,7 +268,7 @@ def check_onpolicy(tb: Tables, script, obs, acts, rews, dones, logps, vals, psta
     if not trace_actions:
         add(np.asarray(final_c) != c, Tn, "C04/carry/policy-state", lambda i: f"carried policy counter {final_c[i]}, reference {c[i]} (policy must restart after a done step)")
     # GAE of the *recorded* rows (their own fidelity is judged above) with the reference's bootstrap
-    last_v = tb.V[b, s_fin]
+    last_v = tb.V[b, s_fin] + tb.VS * c  # carried policy state (restarted after a final done step)
     e_adv, e_ret = gae_np(rews, vals, dones, last_v, gamma, lam)
     for j in range(Tn):
         add(~close(adv[:, j], e_adv[:, j], 2e-5), j, "C04/gae/advantage", lambda i: f"step {j}: advantage {adv[i, j]}, reference GAE {e_adv[i, j]} (bootstrap V={last_v[i]})")
